@@ -78,6 +78,17 @@ def phybo_streams(tier, seed):
             ("phybo_history", [gl.gen_phybo_history_case(rng) for _ in range(h)], "phybo_case", "phybo_case_code")]
 
 
+def phybo_weighted_streams(tier, seed):
+    """C08: the weighted mode through PhyBo.get_GLS (plain three-mode runs, where the weighted call comes first,
+    and histories of weighted calls on one object)."""
+    rng = random.Random(seed + 5)
+    n = 50 if tier == "quick" else 800
+    h = 60 if tier == "quick" else 800
+    return [("phybo_get_GLS", [gl.gen_phybo_case(rng) for _ in range(n)], "phybo_case", "phybo_case_code"),
+            ("phybo_weighted_history", [gl.gen_phybo_weighted_history_case(rng) for _ in range(h)],
+             "phybo_case", "phybo_case_code")]
+
+
 def corpus_streams(kinds):
     import glob
     import os
@@ -99,7 +110,8 @@ def brute_streams(tier, seed):
 
 def streams(tier, seed, prop):
     if prop == "C08":
-        return corpus_streams(["get_gls"]) + gls_streams(tier, seed) + brute_streams(tier, seed)
+        return (corpus_streams(["get_gls"]) + gls_streams(tier, seed) + phybo_weighted_streams(tier, seed)
+                + brute_streams(tier, seed))
     return (corpus_streams(["get_gls", "glsr", "topdown"]) + gls_streams(tier, seed) + glsr_streams(tier, seed)
             + td_streams(tier, seed) + phybo_streams(tier, seed))
 
